@@ -214,35 +214,55 @@ def run(ctx):
         # ascii_checksum_to_bin: a negative hex_to_int result never reaches a non-NULL return
         ac = prog.need_func('ascii_checksum_to_bin')
         hs = calls_of(ac, ('hex_to_int',))
-        ck.require(len(hs) == 1, 'ascii_checksum_to_bin: expected one hex_to_int call')
+        ck.require(len(hs) >= 1, 'ascii_checksum_to_bin no longer calls hex_to_int')
         convs = errdisc.Conventions(prog)
-        rule = errdisc.SiteRule(prog, convs, ac, hs[0], 'hex_to_int', 'neg', M1 | Z | P1 | POS, 'ptr',
-                                unique_defs(ac), 'io')
-        eng = Engine(prog, rule)
-        eng.summary(ac, 'pre')
-        ck.ob('C07-b', 'R1.errdisc', ac.name, 'hex_to_int', not rule.violations,
-              'a negative hex_to_int() result never reaches a non-NULL return' if not rule.violations else
-              'non-hex character accepted: ' + rule.violations[0]['what'], hs[0].file, hs[0].line, config=config)
-        # the loop visits every character: for(i = 0; i < checksum_length; i++) with the call on checksum[i]
+        for k, h in enumerate(hs):
+            rule = errdisc.SiteRule(prog, convs, ac, h, 'hex_to_int', 'neg', M1 | Z | P1 | POS, 'ptr',
+                                    unique_defs(ac), 'io')
+            eng = Engine(prog, rule)
+            eng.summary(ac, 'pre')
+            ck.ob('C07-b', 'R1.errdisc', ac.name, 'hex_to_int#%d' % (k + 1), not rule.violations,
+                  'a negative hex_to_int() result never reaches a non-NULL return' if not rule.violations else
+                  'non-hex character accepted: the -1 of hex_to_int() is not tested on its own before it is used (%s)'
+                  % rule.violations[0]['what'], h.file, h.line, config=config)
+        # the loop visits every character: for(i = 0; i < checksum_length; i += s) with calls on checksum[i .. i+s-1]
         from ..ir import walk_stmts
-        loops = [s for s in walk_stmts(ac.body) if s.k == 'for']
+        loops = [s_ for s_ in walk_stmts(ac.body) if s_.k == 'for']
         ok_loop = False
         why = 'no for loop'
         for lp in loops:
             init_ok = lp.init is not None and any(
-                (s.k == 'decl' and s.e is not None and const_value(s.e) == 0) or
-                (s.k == 'expr' and strip(s.e).k == 'bin' and strip(s.e).op == '=' and const_value(strip(s.e).a[1]) == 0)
-                for s in walk_stmts(lp.init))
+                (s_.k == 'decl' and s_.e is not None and const_value(s_.e) == 0) or
+                (s_.k == 'expr' and strip(s_.e).k == 'bin' and strip(s_.e).op == '=' and const_value(strip(s_.e).a[1]) == 0)
+                for s_ in walk_stmts(lp.init))
             c = strip_transparent(lp.e) if lp.e is not None else None
             cond_ok = c is not None and c.k == 'bin' and c.op == '<' and pstr(c.a[1]) == 'checksum_length'
-            inc_ok = lp.inc is not None and strip(lp.inc).k == 'un' and strip(lp.inc).op == '++'
-            arg = strip(hs[0].a[1])
-            arg_ok = arg.k == 'idx' or (arg.k == 'cast')
-            sub = strip(hs[0].a[1])
-            idx_ok = sub.k == 'idx' and c is not None and pstr(sub.a[1]) == pstr(c.a[0]) and pstr(sub.a[0]) == 'checksum'
-            no_skip = not any(s.k in ('continue', 'break', 'goto') for s in walk_stmts(lp.body))
-            ok_loop = init_ok and cond_ok and inc_ok and idx_ok and no_skip
-            why = 'init0=%s cond=%s inc=%s subscript=%s no-skip=%s' % (init_ok, cond_ok, inc_ok, idx_ok, no_skip)
+            clin = lin(c.a[0]) if cond_ok else None
+            cond_ok = cond_ok and clin is not None and len(clin.t) == 1 and list(clin.t.values()) == [1]
+            ivar = list(clin.t)[0] if cond_ok else None
+            cond_k = clin.c if cond_ok else 0
+            stride = None
+            inc = strip(lp.inc) if lp.inc is not None else None
+            if inc is not None and inc.k == 'un' and inc.op == '++' and pstr(inc.a[0]) == ivar:
+                stride = 1
+            elif inc is not None and inc.k == 'bin' and inc.op == '+=' and pstr(inc.a[0]) == ivar:
+                stride = const_value(inc.a[1])
+            offs = set()
+            sub_ok = True
+            for h in hs:
+                sub = strip(h.a[1])
+                if sub.k != 'idx' or pstr(sub.a[0]) != 'checksum':
+                    sub_ok = False
+                    continue
+                v = lin(sub.a[1])
+                if v is None or v.t != {ivar: 1}:
+                    sub_ok = False
+                else:
+                    offs.add(v.c)
+            no_skip = not any(s_.k in ('continue', 'break', 'goto') for s_ in walk_stmts(lp.body))
+            ok_loop = bool(init_ok and cond_ok and stride and 0 <= cond_k <= stride - 1 and sub_ok and
+                           offs == set(range(stride)) and no_skip)
+            why = 'init0=%s cond=%s stride=%s subscripts=%s no-skip=%s' % (init_ok, cond_ok, stride, sorted(offs), no_skip)
         ck.ob('C07-b', 'R8.loop-shape', ac.name, 'all-characters', ok_loop,
               'conversion loop visits checksum[0..checksum_length) once each (%s)' % why, ac.file, ac.line,
               config=config)
